@@ -102,7 +102,7 @@ def evaluate(trace, M, labels, param, fw, res: Result, ox=0):
         return
     # species order deliberately mixed: Li, S, Li, S, P  (concretise gives Li, Li, S, S, P)
     order = [0, 2, 1, 3, 4]
-    species = ['Li', 'S', 'Li', 'S', 'P']
+    species = ['Li', 'S', 'Li', 'S', 'P' if ox else 'Si']  # 'Si' contains the symbol 'S'
     coords = coords[:, order, :]
     sp_objs = species
     if ox:
@@ -140,7 +140,8 @@ def evaluate(trace, M, labels, param, fw, res: Result, ox=0):
     bins = np.arange(0, max_dist + reso, reso)
     pos = np.mod(coords, 1)
     li = [0, 2]
-    sym_idx = {'Li': [0, 2], 'S': [1, 3], 'P': [4]}
+    last = species[4]
+    sym_idx = {'Li': [0, 2], 'S': [1, 3], last: [4]}
     prev, nxt = hop.prev_next(trace)
     exp = defaultdict(lambda: np.zeros(len(bins), dtype=int))
     tie_bins = set()
@@ -163,6 +164,10 @@ def evaluate(trace, M, labels, param, fw, res: Result, ox=0):
                         exp[st, sym][k] += 1
                         npairs += 1
     res.evals += npairs
+    if (param + len(trace)) % 2:
+        # an earlier analysis may have left the trajectories in displacement mode
+        tr.diff_trajectory.displacements
+        tr.trajectory.displacements
     try:
         ret = radial_distribution(transitions=tr, floating_specie='Li', max_dist=max_dist, resolution=reso)
     except Exception as e:  # noqa: BLE001
@@ -202,7 +207,7 @@ def evaluate(trace, M, labels, param, fw, res: Result, ox=0):
     res.outcome(hash((tuple(map(tuple, trace)), tuple(labels), param, tuple(sorted((k, v.tobytes()) for k, v in got.items())))))
     # --- species pair distribution
     V = abs(np.linalg.det(M))
-    for s1, s2 in (('Li', 'S'), ('S', 'Li'), ('Li', 'P'), ('S', 'S')):
+    for s1, s2 in (('Li', 'S'), ('S', 'Li'), ('Li', last), ('S', 'S'), (last, 'S')):
         try:
             r = radial_distribution_between_species(trajectory=traj, specie_1=s1, specie_2=s2, max_dist=max_dist, resolution=reso)
         except Exception as e:  # noqa: BLE001
